@@ -74,6 +74,9 @@ def multi_period_stream_not_ready(mps: MultiPeriodStream) -> str | None:
             return f'period {prd.pid}: {reason}'
         if not any(adp.content_type.name == 'video' for adp in prd.adaptation_sets):
             return f'period {prd.pid} has no video adaptation set'
+    if mps.total_duration().total_seconds() <= 0:
+        # a live presentation loops the periods, which needs time to pass
+        return f'{mps.name} has no duration'
     return None
 
 
